@@ -166,6 +166,30 @@ func build(n int, thorough bool) *fam {
 	hist("vote-for-genesis", true, B(c1), B(c2), V(0, 0, 0), V(0, c2, 0), R, V(0, 0, 0), B(c3))
 	hist("skip-link-does-not-finalize", true, append(append([]int{B(c1), B(c2), B(c3), B(c4)}, votes(full, 0, c4)...), R, B(c5))...)
 	hist("cached-votes-before-target", true, append(append([]int{}, votes(full, 0, c2)...), B(c1), B(c2), B(c3), R, B(c4))...)
+	// votes that arrive BEFORE their target block are parked and replayed when the first block of the next epoch
+	// connects: the replay path must apply the same checks. Every kind of bad vote parked next to thr-1 valid ones,
+	// and a full set of forged ones.
+	bvotes := func(vs []int, s, t int) []int {
+		var h []int
+		for _, v := range vs {
+			h = append(h, VBad(v, s, t))
+		}
+		return h
+	}
+	after := []int{B(c1), B(c2), B(c3), R, B(c4)}
+	hist("cached-all-forged", true, append(bvotes(allSlots, 0, c2), after...)...)
+	if thr-1 < n {
+		hist("cached-forged-completes-majority", true, append(append(votes(base, 0, c2), VBad(thr-1, 0, c2)), after...)...)
+		hist("cached-forged-first-then-valid", true, append(append([]int{VBad(thr-1, 0, c2)}, votes(base, 0, c2)...), after...)...)
+	}
+	hist("cached-nonvalidator-completes-majority", true, append(append(votes(base, 0, c2), V(n, 0, c2)), after...)...)
+	// parked votes from a source that is not justified when they are replayed
+	hist("cached-unjustified-source", false, append(append(votes(full, c2, c4), B(c1), B(c2), B(c3), B(c4)), B(c5), R)...)
+	for _, s := range subsets {
+		if len(s) > 0 && (n <= 5 || thorough) {
+			hist(fmt.Sprintf("cached%v", s), true, append(votes(s, 0, c2), after...)...)
+		}
+	}
 	return f
 }
 
